@@ -134,6 +134,9 @@ StateMethod = Callable[..., None]
 class _StateData:
     def __init__(self, wrapper: _State) -> None:
         self.name = wrapper.name
+        # only timed states expire; an untimed state must not pick up the
+        # duration tunable of an inherited timed state that it overrides
+        self.timed = wrapper.duration is not None
         self.duration_attr = f"{self.name}_duration"
         self.expires: float = 0xFFFFFFFF
         self.ran = False
@@ -642,9 +645,11 @@ class StateMachine:
             if initial_call:
                 state.ran = True
                 state.start_time = new_state_start
-                state.expires = new_state_start + getattr(
-                    self, state.duration_attr, 0xFFFFFFFF
-                )
+                if state.timed:
+                    duration = getattr(self, state.duration_attr, 0xFFFFFFFF)
+                else:
+                    duration = 0xFFFFFFFF
+                state.expires = new_state_start + duration
 
                 if self.VERBOSE_LOGGING:
                     self.logger.info("%.3fs: Entering state: %s", tm, state.name)
